@@ -1430,7 +1430,7 @@ def format_table():
 
 def expected_roundtrip(kind, cell):
     """mirror of Formats.roundtrip (checked against it by vm_compute in saveload_check)"""
-    have, rect = cell != "none", cell != "triclinic"
+    have, rect = cell != "none", cell in ("none", "rectilinear")
     if kind in ("Keeps", "ZeroBox"):
         return have
     if kind == "RequiresCell":
@@ -1490,6 +1490,10 @@ def saveload_check(ctx):
                 bad = "save/load failed: %s" % v
             elif v["have"] != e or v["half"] or v["mixed"] or not v["per_frame"] or v["frames"] != int(nf):
                 bad = "cell presence after save/load: %s (expected complete cell: %s)" % (v, e)
+            elif not v.get("values_ok", True) and not (ext in (".pdb", ".pdb.gz") and int(nf) > 1):
+                # (mdtraj's PDB writer stores ONE CRYST1 record: a multi-frame PDB comes back with the first frame's cell in every
+                #  frame - a limit of the writer, presence is still judged; values are judged for single frames)
+                bad = "the loaded lengths / angles are not the saved ones (2e-2 nm, 5e-2 degree): %s" % v
             if bad:
                 ok = False
                 ctx.fail("save/load of %s%s does not follow the format table (%s)" % (ext, " with " + opt.split("=")[0] if opt else "", kind), case, observed=bad,
